@@ -10,10 +10,20 @@ pub use expr::Eval;
 
 pub use expand::{expand, expand_eval, IfMissing};
 
-#[derive(Debug, Clone, Eq, PartialEq, Serialize, Deserialize, Hash)]
+#[derive(Debug, Clone, Eq, PartialEq, Serialize, Deserialize)]
 pub struct Env {
     #[serde(flatten)]
     inner: HashMap<String, EnvKey>,
+}
+
+impl std::hash::Hash for Env {
+    fn hash<H: std::hash::Hasher>(&self, state: &mut H) {
+        // `inner` iterates in an order that differs from process to process, but
+        // equal environments have to hash equally across invocations
+        let mut entries = self.inner.iter().collect::<Vec<_>>();
+        entries.sort_by(|a, b| a.0.cmp(b.0));
+        entries.hash(state);
+    }
 }
 
 #[derive(Debug, Clone, Eq, PartialEq, Serialize, Deserialize, Hash)]
